@@ -137,8 +137,14 @@ func expr(c *ex.Ctx, nm names, e ast.Expr) (string, bool) {
 			}
 		}
 	}
-	c.Fail("%s: expression %q is outside the translated subset", c.Pos(e), norm(c, e))
+	// outside the translated subset: the caller degrades the definition (see `degrade`), the extractor does not fail
 	return "", false
+}
+
+// degrade writes a placeholder for an index expression that could not be translated: the model then differs from the
+// code (correspondence) and Props/C19Wid.list_rhs_is_gen fails, naming what changed; the extractor goes on.
+func degrade(sb *strings.Builder, leanName, why string) {
+	fmt.Fprintf(sb, "def %s (n index height : Int) : Int := 0  -- UNTRANSLATED: %s\n", leanName, strings.Join(strings.Fields(why), " "))
 }
 
 // wantBodies: the bodies the hand-written models transcribe (widgets/list New/Index/Draw/min/max, widgets/pager
@@ -291,14 +297,9 @@ func gen(c *ex.Ctx) {
 	if f == nil {
 		return
 	}
-	for _, nm := range []string{"min", "max"} {
-		fd := ex.FindFunc(f, "", nm)
-		if fd == nil {
-			c.Fail("widgets/list/list.go: helper %s not found", nm)
-			continue
-		}
-		wantFunc(c, "list.go "+nm, fd, "func "+nm+"(a, b int) int")
-	}
+	// min/max/New/Index/Draw, pager Layout/Draw/Scroll*, scrollbar Draw are no longer compared textually here: their bodies
+	// are translated into Gen/WidSkel.lean (genWidSkel), executed by Model/WidExec.lean and proved equal to the models
+	// (Props/C19Wid.lean); a change of the source makes `wid_bodies_as_expected` fail instead of this extractor.
 	methods := []struct{ goName, leanName string }{
 		{"Down", "down"}, {"Up", "up"}, {"Home", "home"}, {"End", "«end»"},
 		{"PageDown", "pageDown"}, {"PageUp", "pageUp"}, {"SetItems", "setItems"},
@@ -307,15 +308,16 @@ func gen(c *ex.Ctx) {
 	for _, m := range methods {
 		fd := ex.FindFunc(f, "List", m.goName)
 		if fd == nil {
-			c.Fail("widgets/list/list.go: List.%s not found", m.goName)
+			degrade(&sb, m.leanName, "List."+m.goName+" not found")
 			continue
 		}
 		var rhs ast.Expr
+		odd := ""
 		nm := names{}
 		if fd.Recv != nil && len(fd.Recv.List) == 1 && len(fd.Recv.List[0].Names) == 1 {
 			nm.recv = fd.Recv.List[0].Names[0].Name
 		} else {
-			c.Fail("%s: List.%s has no named receiver", c.Pos(fd), m.goName)
+			degrade(&sb, m.leanName, "List."+m.goName+" has no named receiver")
 			continue
 		}
 		winName := ""
@@ -336,39 +338,32 @@ func gen(c *ex.Ctx) {
 			case t == nm.recv+".items = "+nm.items && m.goName == "SetItems" && i == 0:
 			default:
 				if !isAssign || as.Tok != token.ASSIGN || len(as.Lhs) != 1 || len(as.Rhs) != 1 || norm(c, as.Lhs[0]) != nm.recv+".index" || rhs != nil || i != len(fd.Body.List)-1 {
-					c.Fail("%s: List.%s statement %q is not the single final `%s.index = …`", c.Pos(s), m.goName, t, nm.recv)
+					odd = "statement " + t + " is not the single final index assignment"
 					continue
 				}
 				rhs = as.Rhs[0]
 			}
 		}
+		if odd != "" {
+			degrade(&sb, m.leanName, odd)
+			continue
+		}
 		if rhs == nil {
-			c.Fail("widgets/list/list.go: List.%s has no `m.index = …`", m.goName)
+			degrade(&sb, m.leanName, "no index assignment")
 			continue
 		}
 		if s, ok := expr(c, nm, rhs); ok {
 			fmt.Fprintf(&sb, "def %s (n index height : Int) : Int := %s  -- %s\n", m.leanName, s, norm(c, rhs))
+		} else {
+			degrade(&sb, m.leanName, "expression "+norm(c, rhs)+" is outside the translated subset")
 		}
-	}
-	if fd := ex.FindFunc(f, "", "New"); fd != nil {
-		wantFunc(c, "list.go New", fd, "func New(items []string) List")
-	} else {
-		c.Fail("widgets/list/list.go: New not found")
-	}
-	if fd := ex.FindFunc(f, "List", "Index"); fd != nil {
-		wantFunc(c, "list.go Index", fd, "func (m *List) Index() int")
 	}
 	guard := false
 	if fd := ex.FindFunc(f, "List", "Draw"); fd != nil {
 		st := fd.Body.List
 		if len(st) > 1 && emptyGuard.MatchString(norm(c, st[1])) {
 			guard = true
-			st = append([]ast.Stmt{st[0]}, st[2:]...)
 		}
-		fd.Body.List = st
-		wantFunc(c, "list.go Draw", fd, "func (m *List) Draw(win vaxis.Window)")
-	} else {
-		c.Fail("widgets/list/list.go: List.Draw not found")
 	}
 	fmt.Fprintf(&sb, "\n/-- `Draw` starts with `if len(m.items) == 0 { return }` (after reading the window size). -/\ndef drawEmptyGuard : Bool := %v\n", guard)
 
@@ -382,40 +377,9 @@ func gen(c *ex.Ctx) {
 		st := fd.Body.List
 		if n := len(st); n > 0 && flushLast.MatchString(norm(c, st[n-1])) {
 			flush = true
-			st = st[:n-1]
 		}
-		fd.Body.List = st
-		wantFunc(c, "pager.go Layout", fd, "func (m *Model) Layout()")
-	} else {
-		c.Fail("widgets/pager/pager.go: Model.Layout not found")
-	}
-	if fd := ex.FindFunc(p, "Model", "Draw"); fd != nil {
-		wantFunc(c, "pager.go Draw", fd, "func (m *Model) Draw(win vaxis.Window)")
-	} else {
-		c.Fail("widgets/pager/pager.go: Model.Draw not found")
-	}
-	if fd := ex.FindFunc(p, "Model", "ScrollDown"); fd != nil {
-		wantFunc(c, "pager.go ScrollDown", fd, "func (m *Model) ScrollDown()")
-	} else {
-		c.Fail("pager.go: ScrollDown not found")
-	}
-	if fd := ex.FindFunc(p, "Model", "ScrollUp"); fd != nil {
-		wantFunc(c, "pager.go ScrollUp", fd, "func (m *Model) ScrollUp()")
-	} else {
-		c.Fail("pager.go: ScrollUp not found")
 	}
 	fmt.Fprintf(&sb, "\n/-- `Layout` ends with `if len(l.characters) > 0 { m.lines = append(m.lines, l) }`. -/\ndef layoutFlushesLast : Bool := %v\n", flush)
-
-	// ---------------------------------------------------------------- widgets/scrollbar
-	s := c.Parse("widgets/scrollbar/scrollbar.go")
-	if s == nil {
-		return
-	}
-	if fd := ex.FindFunc(s, "Model", "Draw"); fd != nil {
-		wantFunc(c, "scrollbar.go Draw", fd, "func (m *Model) Draw(win vaxis.Window)")
-	} else {
-		c.Fail("widgets/scrollbar/scrollbar.go: Model.Draw not found")
-	}
 
 	// ---------------------------------------------------------------- vxfw/list
 	d := c.Parse("vxfw/list/list.go")
